@@ -14,7 +14,7 @@ use bytes::{Bytes, BytesMut};
 use qbase::{
     cid::ConnectionId,
     error::QuicError,
-    frame::FrameReader,
+    frame::{Frame, FrameReader},
     net::addr::EndpointAddr,
     packet::{
         DataHeader, GetDcid, GetScid, Packet, PacketReader,
@@ -448,6 +448,24 @@ fn frames_line(sink: &mut Sink, pti: u64, input: &[u8]) {
                 Some(Ok((f, _ty))) => {
                     let used = before.wrapping_sub(rd.len());
                     if rd.len() >= before { bad.push(("consumed:FrameReader:zero".into(), format!("an Ok step left {} of {} bytes", rd.len(), before))); items.push("STUCK".into()); break; }
+                    // well-formedness of the decoded VALUE (independent of the model): RFC 9000 19.8 / 19.6 — the
+                    // largest offset carried by a STREAM / CRYPTO frame cannot exceed 2^62-1 (MUST be refused with
+                    // FRAME_ENCODING_ERROR or FLOW_CONTROL_ERROR); and a decoded value must itself be encodable and
+                    // decode back to the same value (a mis-framed value generally does not)
+                    const VMAX62: u64 = (1u64 << 62) - 1;
+                    match &f {
+                        Frame::Stream(sf, d) => {
+                            if sf.offset().checked_add(d.len() as u64).map_or(true, |e| e > VMAX62) {
+                                bad.push(("illformed:STREAM:beyond-2^62-1".into(), format!("a STREAM frame with offset {} and {} bytes of data (end beyond 2^62-1) was decoded instead of refused", sf.offset(), d.len())));
+                            }
+                        }
+                        Frame::Crypto(cf, d) => {
+                            if cf.offset().checked_add(d.len() as u64).map_or(true, |e| e > VMAX62) {
+                                bad.push(("illformed:CRYPTO:beyond-2^62-1".into(), format!("a CRYPTO frame with offset {} and {} bytes of data (end beyond 2^62-1) was decoded instead of refused", cf.offset(), d.len())));
+                            }
+                        }
+                        _ => {}
+                    }
                     items.push(format!("ok used={} {}", used, c05::show(&f)));
                 }
                 Some(Err(e)) => {
